@@ -1,9 +1,10 @@
 (* C13 - Nucleotide and protein inputs are recognised from their residue letters.
-   Statements only; proofs in DetectProofs.v.  The theorems are about the EXACT values of the
-   binary64 table entries the running code holds (regenerated on every run); that the binary64
-   summation decides like the exact sum is tied by the bit-exact correspondence of the sums and a
-   monitored margin (DESIGN C13, section 7). *)
-From KV Require Import Base FP Detect DetectProofs.
+   Statements only; proofs in DetectProofs.v and DetectFloatProofs.v.  The theorems are about the EXACT
+   values of the binary64 table entries the running code holds (regenerated on every run), and - through a
+   forward error analysis of the two binary64 sums over Flocq's IEEE-754 model (each within 2^-38 * n of the
+   exact sum, n = number of counted letters) - about the floating-point computation itself:
+   C13_nucleotide_detected / C13_protein_detected state what detect_alphabet RETURNS. *)
+From KV Require Import Base FP Detect DetectProofs DetectFloatProofs.
 From Coq Require Import Permutation.
 Local Open Scope Z_scope.
 
@@ -81,3 +82,31 @@ Example C13_nonvacuous :
   let h2 := histogram [[77;75;86;76;65;65;71;73]; [65;67;71;87]] in
   (total_letters 0 h2 <=? 4 * class_count only_po 0 h2) = true /\ (exact_margin h2 <? 0) = true.
 Proof. vm_compute. repeat split; reflexivity. Qed.
+
+
+(* ---- the binary64 computation itself (counts are C ints: 0 <= c < 2^31) ------------------------------------------- *)
+(* the comparison of the two binary64 sums decides like the exact margin unless that margin is below 2^-37 per letter *)
+Theorem C13_float_decides_like_exact : forall freq,
+  length freq = 128%nat -> Forall (fun c => 0 <= c < 2 ^ 31) freq ->
+  let n := total_letters 0 freq in
+  1 <= n -> n * unit1074 < 2 ^ 37 * Z.abs (exact_margin freq) ->
+  detect_alphabet freq = Some (if 0 <? exact_margin freq then ALN_BIOTYPE_DNA else ALN_BIOTYPE_PROTEIN).
+Proof. exact float_decides_like_exact. Qed.
+Print Assumptions C13_float_decides_like_exact.
+
+(* Premise 1: only A C G T U N (either case), at least one residue: detect_alphabet returns DNA *)
+Theorem C13_nucleotide_detected : forall freq,
+  length freq = 128%nat -> Forall (fun c => 0 <= c < 2 ^ 31) freq -> hist_only nuc_or_u 0 freq -> 0 < total_letters 0 freq ->
+  detect_alphabet freq = Some ALN_BIOTYPE_DNA.
+Proof. exact nucleotide_detected. Qed.
+Print Assumptions C13_nucleotide_detected.
+
+(* Premise 2 without U: at least a quarter protein-only letters: detect_alphabet returns protein *)
+Theorem C13_protein_detected : forall freq,
+  length freq = 128%nat -> Forall (fun c => 0 <= c < 2 ^ 31) freq ->
+  0 < total_letters 0 freq -> total_letters 0 freq <= 4 * class_count only_po 0 freq ->
+  class_count is_nuc_letter 0 freq + class_count only_u 0 freq + class_count only_po 0 freq <= total_letters 0 freq ->
+  class_count only_u 0 freq = 0 ->
+  detect_alphabet freq = Some ALN_BIOTYPE_PROTEIN.
+Proof. exact protein_detected. Qed.
+Print Assumptions C13_protein_detected.
